@@ -706,9 +706,11 @@ impl<N, E, S: BuildHasher, Ty: EdgeType, Null: Nullable<Wrapped = E>, Ix: IndexT
     }
 
     fn assert_node_bounds(&self, a: NodeIndex<Ix>, b: NodeIndex<Ix>) -> Result<(), MatrixError> {
-        if a.index() >= self.node_capacity {
+        // A node that exists is never missing, even if the matrix has not yet been grown
+        // to hold an edge for it (`update_edge` extends the capacity as needed).
+        if a.index() >= self.node_capacity && self.get_node_weight(a).is_none() {
             Err(MatrixError::NodeMissed(a.index()))
-        } else if b.index() >= self.node_capacity {
+        } else if b.index() >= self.node_capacity && self.get_node_weight(b).is_none() {
             Err(MatrixError::NodeMissed(b.index()))
         } else {
             Ok(())
